@@ -120,6 +120,8 @@ pub(crate) fn repair_index<S: Open>(
 struct PackChecker {
     packs: HashMap<PackId, u32>,
     packs_to_read: Vec<(PackId, Option<u32>, u32)>,
+    /// packs which so far have only been kept with their delete mark, with their actual size
+    kept_marked: HashMap<PackId, u32>,
 }
 
 impl PackChecker {
@@ -136,6 +138,7 @@ impl PackChecker {
         Ok(Self {
             packs,
             packs_to_read: Vec::new(),
+            kept_marked: HashMap::new(),
         })
     }
 
@@ -147,9 +150,28 @@ impl PackChecker {
             let id = p.id;
             match self.packs.remove(&id) {
                 None => {
-                    // this pack either does not exist or was already indexed in another index file => remove from index!
-                    debug!("removing non-existing pack {id} from index");
-                    changed = true;
+                    match self.kept_marked.get(&id) {
+                        // the pack was met before, but only with a delete mark, and this entry lists it as in use
+                        // (e.g. after an interrupted prune) => it must stay in use
+                        Some(&size) if !to_delete => {
+                            _ = self.kept_marked.remove(&id);
+                            if index_size == size {
+                                new_index.add(p, to_delete);
+                            } else {
+                                self.packs_to_read.push((
+                                    id,
+                                    Some(PackHeaderRef::from_index_pack(&p).size()),
+                                    size,
+                                ));
+                                changed = true;
+                            }
+                        }
+                        _ => {
+                            // this pack either does not exist or was already indexed in another index file => remove from index!
+                            debug!("removing non-existing pack {id} from index");
+                            changed = true;
+                        }
+                    }
                 }
                 Some(size) => {
                     if index_size != size {
@@ -167,6 +189,9 @@ impl PackChecker {
                         ));
                         changed = true;
                     } else {
+                        if to_delete {
+                            _ = self.kept_marked.insert(id, size);
+                        }
                         new_index.add(p, to_delete);
                     }
                 }
